@@ -9,7 +9,7 @@ PROFILE = dict(named_cols=0.4, partial_args=0.3, inclusion=0.3, assign=0.7, list
 
 
 def run(tier, replay=None):
-  rep = common.Report(PID, tier, 'proof')
+  rep = common.Report(PID, tier, 'other')
   rep.assumptions = [
       'oracle: Core/Eval.v (reference evaluator of the documented bag semantics), evaluated by vm_compute on the '
       'generator\'s own AST (independent of the parser and compiler)',
